@@ -304,6 +304,21 @@ FlatNode(t, id, par, slot) ==
 Flatten(t) == FlatNode(t, 1, 0, "")
 
 -----------------------------------------------------------------------------
+(* Deep nesting: one frame plugged into itself n times (the properties quantify over nesting up to 64) *)
+RECURSIVE Nest(_, _, _)
+Nest(f, t, n) == IF n = 0 THEN t ELSE Plug(f, Nest(f, t, n - 1))
+FrameOf(k, hs, hp) == CHOOSE f \in AllFrames : f.k = k /\ f.hs = hs /\ f.hp = hp /\ f.in \in {"E", "S"}
+DeepFrames == {FrameOf("E.Parenthesis", 1, 1), FrameOf("E.Add", 1, 1), FrameOf("E.Add", 2, 1), FrameOf("E.Not", 1, 1),
+               FrameOf("E.FunctionCall", 2, 2), FrameOf("E.ArraySubscript", 2, 1), FrameOf("E.Ternary", 3, 1),
+               FrameOf("E.Assign", 2, 1), FrameOf("E.MemberAccess", 1, 1), FrameOf("E.PreIncrement", 1, 1)}
+DeepStmtFrames == {CHOOSE f \in AllFrames : f.k = "S.Block" /\ ~f.a.unchecked /\ f.hp = 2 /\ Len(f.c[1]) = 2,
+                   CHOOSE f \in AllFrames : f.k = "S.If" /\ f.hs = 3,
+                   CHOOSE f \in AllFrames : f.k = "S.While" /\ f.hs = 2 /\ f.in = "S",
+                   CHOOSE f \in AllFrames : f.k = "S.For" /\ f.hs = 4 /\ f.c[1] = <<>>}
+DeepTrees(n, seedE, seedS) ==
+    {ToFile(Nest(f, seedE, n), "E") : f \in DeepFrames} \cup {ToFile(Nest(f, seedS, n), "S") : f \in DeepStmtFrames}
+
+-----------------------------------------------------------------------------
 \* vacuity guard: the frames exercise every (kind, slot) of Sig
 FrameSlots == {<<f.k, (IF f.k = "E.Type" THEN TypeSig(f.a.ty) ELSE FixedSig[f.k])[f.hs].lab>> : f \in AllFrames}
 SigSlots == UNION {{<<k, FixedSig[k][i].lab>> : i \in 1 .. Len(FixedSig[k])} : k \in DOMAIN FixedSig}
